@@ -605,8 +605,50 @@ class AI(object):
             self.assign(loc, v, s, dtype(d), init, u)
             if self.value_numbers and isinstance(v, Ptr):
                 self._vn_copy(s, loc, init, u, d)
+            self._note_quotient(loc, init, s, u)
             out.append(s)
         return out
+
+    # -- `const int q = x / c;` : remembered (until x or q is assigned) so that  x - q * c  is read as  x % c
+    def _note_quotient(self, loc, init, s, u):
+        x = peel(init)
+        if x is None or x.get('kind') != 'BinaryOperator' or x.get('opcode') != '/':
+            return
+        a, b = kids(x)
+        c = self.folder(u).fold(b)
+        pa = peel(a)
+        if c is None or c <= 0 or pa is None or pa.get('kind') != 'DeclRefExpr' or not int_type(dtype(pa) or ''):
+            return
+        r = self.lval(pa, s.copy(), u)
+        if len(r) == 1 and r[0][0] is not None and len(r[0][0]) == 1:
+            s.rel[('quot', loc, r[0][0], c)] = 1
+
+    def _quotient_remainder(self, a, b, va, s, u):
+        """a - b where b is q * c (or c * q, or (x / c) * c) and q is known to hold x / c for the very x that a names: x % c."""
+        pa, pb = peel(a), peel(b)
+        if pa is None or pb is None or pa.get('kind') != 'DeclRefExpr' or pb.get('kind') != 'BinaryOperator' or pb.get('opcode') != '*' \
+                or not isinstance(va, Int):
+            return None
+        ra = self.lval(pa, s.copy(), u)
+        if len(ra) != 1 or ra[0][0] is None:
+            return None
+        xl = ra[0][0]
+        for (q, cexp) in ((kids(pb)[0], kids(pb)[1]), (kids(pb)[1], kids(pb)[0])):
+            c = self.folder(u).fold(cexp)
+            pq = peel(q)
+            if c is None or c <= 0 or pq is None:
+                continue
+            if pq.get('kind') == 'DeclRefExpr':
+                rq = self.lval(pq, s.copy(), u)
+                if len(rq) == 1 and rq[0][0] is not None and s.rel.get(('quot', rq[0][0], xl, c)) == 1:
+                    return self.mod(va, I(c))
+            if pq.get('kind') == 'BinaryOperator' and pq.get('opcode') == '/' and self.folder(u).fold(kids(pq)[1]) == c:
+                px = peel(kids(pq)[0])
+                if px is not None and px.get('kind') == 'DeclRefExpr':
+                    rx = self.lval(px, s.copy(), u)
+                    if len(rx) == 1 and rx[0][0] == xl:
+                        return self.mod(va, I(c))
+        return None
 
     def _is_predicate(self, e):
         x = peel(e)
@@ -1444,7 +1486,14 @@ class AI(object):
         out = []
         for (va, s) in self.eval(a, st, u):
             for (vb, s2) in self.eval(b, s, u):
-                out.append((self._binop(e, op, va, vb, s2, u, a, b), s2))
+                r_ = self._binop(e, op, va, vb, s2, u, a, b)
+                if op == '-' and s2.rel is not None:
+                    qr = self._quotient_remainder(a, b, va, s2, u)
+                    if qr is not None and isinstance(r_, Int):
+                        r_ = r_.meet(qr) or qr
+                    elif qr is not None:
+                        r_ = qr
+                out.append((r_, s2))
         return out
 
     def _check_store_target(self, a, s, u):
